@@ -192,6 +192,108 @@ theorem repI_rnI_add_sub_of_dvd {a b : Int} (ha : RepI a) (hb : RepI b)
         rw [e1, e2] at h <;> rw [e2, e3] at h2 <;> rw [e2, e4] at hS <;> rw [e4] at hMs <;> rw [e5] <;>
         omega
 
+/-- **Knuth's 2Sum on scaled integers.**  `M` is any representable bound with `2|a|, 2|b| ≤ M` (it is
+`maxFin` in the application); every intermediate exact result is bounded by `M`, and the final sum
+`da + db` is computed exactly and equals the rounding error of `a + b`. -/
+theorem twoSum_int {a b M : Int} (ha : RepI a) (hb : RepI b) (hM : RepI M)
+    (hA : 2 * |a| ≤ M) (hB : 2 * |b| ≤ M) (s aa bb da db : Int)
+    (hs : s = rnI (a + b)) (haa : aa = rnI (s - b)) (hbb : bb = rnI (s - aa))
+    (hda : da = rnI (a - aa)) (hdb : db = rnI (b - bb)) :
+    |a + b| ≤ M ∧ |s - b| ≤ M ∧ |s - aa| ≤ M ∧ |a - aa| ≤ M ∧ |b - bb| ≤ M ∧ |da + db| ≤ M ∧
+      rnI (da + db) = a + b - s := by
+  have he : RepI (a + b - s) := by rw [hs]; exact repI_add_err ha hb
+  have hea : |a + b - s| ≤ |a| := by rw [hs]; exact abs_add_err_le_left hb
+  have heb : |a + b - s| ≤ |b| := by rw [hs]; exact abs_add_err_le_right ha
+  have hab := abs_add_le a b
+  have hM0 : 0 ≤ M := by have := abs_nonneg a; omega
+  have h1 : |a + b| ≤ M := by omega
+  have hsM : |s| ≤ M := by
+    have := abs_rnI_le (v := a + b) hM (by rw [abs_of_nonneg hM0]; exact h1)
+    rwa [abs_of_nonneg hM0, ← hs] at this
+  have hsb : s - b = a + -(a + b - s) := by ring
+  have h2 : |s - b| ≤ M := by
+    have := abs_add_le a (-(a + b - s))
+    rw [abs_neg] at this
+    rw [hsb]; omega
+  rcases le_or_gt |a| |b| with hc | hc
+  · -- `|a| ≤ |b|`: `aa = s - b` exactly
+    have hz := repI_rnI_add_sub hb ha hc
+    rw [Int.add_comm b a, ← hs] at hz
+    have e_aa : aa = s - b := by rw [haa, rnI_of_repI hz.1]
+    have e_bb : bb = b := by
+      have : s - aa = b := by rw [e_aa]; ring
+      rw [hbb, this, rnI_of_repI hb]
+    have e_da : da = a + b - s := by
+      have : a - aa = a + b - s := by rw [e_aa]; ring
+      rw [hda, this, rnI_of_repI he]
+    have e_db : db = 0 := by
+      have : b - bb = 0 := by rw [e_bb]; ring
+      rw [hdb, this, rnI_zero]
+    have e3 : s - aa = b := by rw [e_aa]; ring
+    have e4 : a - aa = a + b - s := by rw [e_aa]; ring
+    have e5 : b - bb = 0 := by rw [e_bb]; ring
+    have e6 : da + db = a + b - s := by rw [e_da, e_db]; ring
+    refine ⟨h1, h2, ?_, ?_, ?_, ?_, ?_⟩
+    · rw [e3]; have := abs_nonneg b; omega
+    · rw [e4]; have := abs_nonneg a; omega
+    · rw [e5, abs_zero]; exact hM0
+    · rw [e6]; have := abs_nonneg a; omega
+    · rw [e6, rnI_of_repI he]
+  · rcases le_or_gt |b| |s| with hc2 | hc2
+    · -- `|b| ≤ |s|`: Fast2Sum for `(s, -b)` and for `(a, -e)`
+      have hS : RepI s := by rw [hs]; exact repI_rnI _
+      have e_sb : s + -b = s - b := by ring
+      have f := repI_rnI_add_sub hS hb.neg (by rwa [abs_neg])
+      rw [e_sb, ← haa] at f
+      have g := repI_add_err hS hb.neg
+      rw [e_sb, ← haa] at g
+      have g2 := abs_add_err_le_right (a := s) (b := -b) hS
+      rw [e_sb, ← haa, abs_neg] at g2
+      have k := repI_rnI_add_sub ha he.neg (by rwa [abs_neg])
+      rw [← hsb, ← haa] at k
+      have e_bb : bb = s - aa := by rw [hbb, rnI_of_repI (repI_sub_comm.1 f.1)]
+      have e_da : da = a - aa := by rw [hda, rnI_of_repI (repI_sub_comm.1 k.1)]
+      have e5 : b - bb = -(s - b - aa) := by rw [e_bb]; ring
+      have e_db : db = b - bb := by rw [hdb, e5, rnI_of_repI g.neg]
+      have e6 : da + db = a + b - s := by rw [e_da, e_db, e_bb]; ring
+      refine ⟨h1, h2, ?_, ?_, ?_, ?_, ?_⟩
+      · rw [abs_sub_comm]; omega
+      · rw [abs_sub_comm]; have := abs_nonneg a; omega
+      · rw [e5, abs_neg]; have := abs_nonneg b; omega
+      · rw [e6]; have := abs_nonneg a; omega
+      · rw [e6, rnI_of_repI he]
+    · -- `|s| < |b| < |a|`: the first addition is exact
+      have hlt : |a + b| ≤ |b| := by
+        by_contra hcon
+        have := le_abs_rnI (v := a + b) hb (by omega)
+        rw [← hs] at this; omega
+      have hr : RepI (a + b) :=
+        repI_of_ulp_dvd_of_lt (dvd_add (ha.ulp_dvd_of_le (le_of_lt hc)) hb.ulp_dvd) hlt
+      have e_s : s = a + b := by rw [hs, rnI_of_repI hr]
+      have e_aa : aa = a := by
+        have : s - b = a := by rw [e_s]; ring
+        rw [haa, this, rnI_of_repI ha]
+      have e_bb : bb = b := by
+        have : s - aa = b := by rw [e_s, e_aa]; ring
+        rw [hbb, this, rnI_of_repI hb]
+      have e_da : da = 0 := by
+        have : a - aa = 0 := by rw [e_aa]; ring
+        rw [hda, this, rnI_zero]
+      have e_db : db = 0 := by
+        have : b - bb = 0 := by rw [e_bb]; ring
+        rw [hdb, this, rnI_zero]
+      have e3 : s - aa = b := by rw [e_s, e_aa]; ring
+      have e4 : a - aa = 0 := by rw [e_aa]; ring
+      have e5 : b - bb = 0 := by rw [e_bb]; ring
+      have e6 : da + db = 0 := by rw [e_da, e_db]; ring
+      have e7 : a + b - s = 0 := by rw [e_s]; ring
+      refine ⟨h1, h2, ?_, ?_, ?_, ?_, ?_⟩
+      · rw [e3]; have := abs_nonneg b; omega
+      · rw [e4, abs_zero]; exact hM0
+      · rw [e5, abs_zero]; exact hM0
+      · rw [e6, abs_zero]; exact hM0
+      · rw [e6, e7, rnI_zero]
+
 end F64
 
 /-! ## values of finite words -/
@@ -406,5 +508,88 @@ theorem pair_zero_spec {x : F64} (hx : x.is_finite = true) (hw : x.WF) :
   refine ⟨by simp [TwoFloat.V, toInt], ?_, hw, WF_zero false⟩
   apply TwoFloat.valid_of_rnI hx rfl hw
   rw [toInt_zero, Int.add_zero, rnI_of_repI hw.repI]
+
+/-! ## T3 — 2Sum: `new_add`, `new_sub` -/
+
+theorem new_add_eq (a b : F64) :
+    TwoFloat.new_add a b =
+      { hi := F64.add a b,
+        lo := F64.add (F64.sub a (F64.sub (F64.add a b) b))
+                (F64.sub b (F64.sub (F64.add a b) (F64.sub (F64.add a b) b))) } := rfl
+
+theorem new_sub_eq (a b : F64) :
+    TwoFloat.new_sub a b =
+      { hi := F64.sub a b,
+        lo := F64.sub (F64.sub a (F64.add (F64.sub a b) b))
+                (F64.add b (F64.sub (F64.sub a b) (F64.add (F64.sub a b) b))) } := rfl
+
+theorem new_add_WF (a b : F64) : (TwoFloat.new_add a b).WF := ⟨add_WF _ _, add_WF _ _⟩
+theorem new_sub_WF (a b : F64) : (TwoFloat.new_sub a b).WF := ⟨sub_WF _ _, sub_WF _ _⟩
+
+/-- 2Sum, word level: for finite well-formed `a`, `b` with `2|a|, 2|b| ≤ maxFin` (i.e. `|a|,|b| < 2^1023`) the
+high word of `new_add a b` is `RN(a + b)` and the low word is the rounding error, both finite. -/
+theorem new_add_words {a b : F64} (ha : a.is_finite = true) (hb : b.is_finite = true)
+    (hwa : a.WF) (hwb : b.WF) (hA : 2 * |a.toInt| ≤ (maxFin : Int)) (hB : 2 * |b.toInt| ≤ (maxFin : Int)) :
+    IsVal (TwoFloat.new_add a b).hi (rnI (a.toInt + b.toInt)) ∧
+    IsVal (TwoFloat.new_add a b).lo (a.toInt + b.toInt - rnI (a.toInt + b.toInt)) := by
+  rw [new_add_eq]
+  obtain ⟨t1, t2, t3, t4, t5, t6, t7⟩ := twoSum_int hwa.repI hwb.repI repI_maxFin hA hB
+    _ _ _ _ _ rfl rfl rfl rfl rfl
+  have va := IsVal.of_finite ha
+  have vb := IsVal.of_finite hb
+  have hs := va.add vb t1
+  have haa := hs.sub vb t2
+  have hbb := hs.sub haa t3
+  have hda := va.sub haa t4
+  have hdb := vb.sub hbb t5
+  have hlo := hda.add hdb t6
+  rw [t7] at hlo
+  exact ⟨hs, hlo⟩
+
+/-- 2Sum with a negated right operand, word level -/
+theorem new_sub_words {a b : F64} (ha : a.is_finite = true) (hb : b.is_finite = true)
+    (hwa : a.WF) (hwb : b.WF) (hA : 2 * |a.toInt| ≤ (maxFin : Int)) (hB : 2 * |b.toInt| ≤ (maxFin : Int)) :
+    IsVal (TwoFloat.new_sub a b).hi (rnI (a.toInt - b.toInt)) ∧
+    IsVal (TwoFloat.new_sub a b).lo (a.toInt - b.toInt - rnI (a.toInt - b.toInt)) := by
+  rw [new_sub_eq]
+  obtain ⟨t1, t2, t3, t4, t5, t6, t7⟩ := twoSum_int hwa.repI hwb.repI.neg repI_maxFin hA
+    (by rwa [abs_neg]) _ _ _ _ _ rfl rfl rfl rfl rfl
+  have va := IsVal.of_finite ha
+  have vb := IsVal.of_finite hb
+  rw [← Int.sub_eq_add_neg] at t1 t2 t3 t4 t5 t6 t7
+  have e1 : ∀ x : Int, x - -b.toInt = x + b.toInt := fun x => by ring
+  rw [e1] at t2
+  simp only [e1] at t3 t4 t5 t6 t7
+  have hs := va.sub vb t1
+  have haa := hs.add vb t2
+  have hbb := hs.sub haa t3
+  have hda := va.sub haa t4
+  -- `db' = RN(-b - bb) = -RN(b + bb)`
+  have e2 : ∀ y : Int, -b.toInt - y = -(b.toInt + y) := fun y => by ring
+  rw [e2, abs_neg] at t5
+  simp only [e2, rnI_neg] at t6 t7
+  have hdb := vb.add hbb t5
+  rw [← Int.sub_eq_add_neg] at t6 t7
+  have hlo := hda.sub hdb t6
+  rw [t7] at hlo
+  exact ⟨hs, hlo⟩
+
+/-- **T3 (2Sum), addition.** -/
+theorem new_add_spec {a b : F64} (ha : a.is_finite = true) (hb : b.is_finite = true)
+    (hwa : a.WF) (hwb : b.WF) (hA : 2 * |a.toInt| ≤ (maxFin : Int)) (hB : 2 * |b.toInt| ≤ (maxFin : Int)) :
+    (TwoFloat.new_add a b).hi.toInt = rnI (a.toInt + b.toInt) ∧
+    (TwoFloat.new_add a b).V = a.toInt + b.toInt ∧
+    (TwoFloat.new_add a b).Valid ∧ (TwoFloat.new_add a b).WF := by
+  have h := new_add_words ha hb hwa hwb hA hB
+  exact eft_package h.1 h.2 (new_add_WF a b).1 (new_add_WF a b).2
+
+/-- **T3 (2Sum), subtraction.** -/
+theorem new_sub_spec {a b : F64} (ha : a.is_finite = true) (hb : b.is_finite = true)
+    (hwa : a.WF) (hwb : b.WF) (hA : 2 * |a.toInt| ≤ (maxFin : Int)) (hB : 2 * |b.toInt| ≤ (maxFin : Int)) :
+    (TwoFloat.new_sub a b).hi.toInt = rnI (a.toInt - b.toInt) ∧
+    (TwoFloat.new_sub a b).V = a.toInt - b.toInt ∧
+    (TwoFloat.new_sub a b).Valid ∧ (TwoFloat.new_sub a b).WF := by
+  have h := new_sub_words ha hb hwa hwb hA hB
+  exact eft_package h.1 h.2 (new_sub_WF a b).1 (new_sub_WF a b).2
 
 end F64
